@@ -73,7 +73,7 @@ func drawRound(r *sim.Rng, se *Session, g *sim.Gen, tier string) *sim.ParRound {
 		if r.Chance(0.35) {
 			owner = r.Intn(nG)
 		}
-		rd.Filters = append(rd.Filters, sim.ParFilter{Spec: *spec, Cached: r.Chance(0.4), Owner: owner})
+		rd.Filters = append(rd.Filters, sim.ParFilter{Spec: *spec, Cached: r.Chance(0.4), Owner: owner, Batch: r.Chance(0.4)})
 	}
 	total := len(se.Filters) + len(rd.Filters)
 	if total == 0 {
